@@ -8,14 +8,17 @@ modulo the line map.
 from __future__ import annotations
 
 import json
+import os
 import shutil
+import tempfile
 
 from ..common import BASE_TRUST, clist, cstr
+from .. import impl
 from . import c04, c13
 
 IMPORTS = "From FV Require Import Base.Str C14.Model."
 
-COMMENT_WORDS = ["a note", " fixed-form comment", "--- section ---", " end subroutine fake", " integer :: not_a_decl", "omment", " module x", "", "     & looks like a continuation"]
+COMMENT_WORDS = ["o not edit", "all it twice", "ontains nothing", "ata follows", "a note", " fixed-form comment", "--- section ---", " end subroutine fake", " integer :: not_a_decl", "omment", " module x", "", "     & looks like a continuation"]
 
 
 def labelled(units, rng):
@@ -41,6 +44,9 @@ def labelled(units, rng):
     walk(units)
 
 
+EXTRA_DECLS = [None, 0]     # rng (set by check_pairs), counter
+
+
 def statements(units):
     """[(label or None, text, kind)]"""
     out = []
@@ -56,6 +62,10 @@ def statements(units):
                 else:
                     k = "exec"
                 out.append((None, t, k))
+                if k == "decl" and EXTRA_DECLS[0] is not None and EXTRA_DECLS[0].random() < 0.4:
+                    # declarations whose first letter is a fixed-form comment flag
+                    EXTRA_DECLS[1] += 1
+                    out.append((None, EXTRA_DECLS[0].choice(["double precision :: dq%d", "character(len=4) :: cq%d", "complex :: zq%d", "doubleprecision dr%d"]) % EXTRA_DECLS[1], "decl"))
             else:
                 out.append((None, nd["open"].strip(), "struct"))
                 walk(nd["body"])
@@ -72,8 +82,11 @@ def statements(units):
 def layout_plan(stmts, rng):
     """decisions shared by both renderings: comment lines, blank lines, continuation cut points, inline comments"""
     plan = []
-    for (lab, t, kind) in stmts:
+    for idx, (lab, t, kind) in enumerate(stmts):
         d = {"comments": [], "blank": 0, "cut": None, "inline": None}
+        if plan and plan[-1].get("join"):
+            plan.append(d)      # written on the previous statement's line
+            continue
         if rng.random() < 0.2:
             d["comments"] = [rng.choice(COMMENT_WORDS) for _ in range(rng.choice([1, 1, 2]))]
         if rng.random() < 0.15:
@@ -88,13 +101,24 @@ def layout_plan(stmts, rng):
                 d["between"] = [rng.choice(["inside a continued statement", ""]) for _ in range(rng.choice([0, 0, 1, 2]))]
         elif rng.random() < 0.15 and kind != "plain":
             d["inline"] = rng.choice([" ! note", " !x"])
+        if (d["cut"] is None and kind in ("exec", "decl") and lab is None and idx + 1 < len(stmts) and stmts[idx + 1][2] == kind and stmts[idx + 1][0] is None
+                and rng.random() < 0.25):
+            d["join"] = rng.choice([";", "; ", " ;"])      # the next statement follows on the same line
         plan.append(d)
     return plan
 
 
 def render(stmts, plan, rng, fixed):
     lines, start = [], []
-    for (lab, t, kind), d in zip(stmts, plan):
+    skip = False
+    for idx, ((lab, t, kind), d) in enumerate(zip(stmts, plan)):
+        if skip:
+            skip = False
+            start.append(len(lines) - 1)
+            continue
+        if d.get("join"):
+            t = t.rstrip() + d["join"] + stmts[idx + 1][1].strip()
+            skip = True
         for _ in range(d["blank"]):
             lines.append("")
         for c in d["comments"]:
@@ -126,7 +150,9 @@ def check_pairs(ctx, n):
         g = c04.Gen(ctx.rng, keyword_names=False)
         units = [g.unit() for _ in range(ctx.rng.choice([1, 2]))]
         labelled(units, ctx.rng)
+        EXTRA_DECLS[0] = ctx.rng
         stmts = statements(units)
+        EXTRA_DECLS[0] = None
         plan = layout_plan(stmts, ctx.rng)
         ftext, fstart = render(stmts, plan, ctx.rng, True)
         rtext, rstart = render(stmts, plan, ctx.rng, False)
@@ -144,6 +170,8 @@ def check_pairs(ctx, n):
         if fd is None or rd is None:
             ctx.report("C14:no-index", "no outline for a generated program", {"kind": "counterexample", "input": inp})
             continue
+        if k < (4 if ctx.quick() else 60):
+            check_pasted(ctx, ftext, rtext, fd, rd)
         fm = c13.map_dump(fd, fstart)
         rm = c13.map_dump(rd, rstart)
         if fm != rm:
@@ -151,6 +179,43 @@ def check_pairs(ctx, n):
                        {"kind": "counterexample", "input": inp,
                         "implementation": {"symbols": [x for x in fm[0] if x not in rm[0]][:8], "diagnostics": [x for x in fm[1] if x not in rm[1]][:8]},
                         "oracle": {"symbols": [x for x in rm[0] if x not in fm[0]][:8], "diagnostics": [x for x in rm[1] if x not in fm[1]][:8]}})
+
+
+def pasted_dump(text, ext, initial):
+    """the same outline as c13.dump, but the text arrives by one ranged edit into a document whose on-disk content is `initial`"""
+    root = tempfile.mkdtemp(prefix="verif_c14_p_")
+    try:
+        path = os.path.join(root, "t" + ext)
+        with open(path, "w") as f:
+            f.write(initial)
+        srv, conn = impl.make_server(root, extra=["--nthreads", "1"])
+        impl.did_open(srv, path)
+        n0 = initial.count("\n")
+        impl.did_change(srv, path, [{"range": {"start": {"line": 0, "character": 0}, "end": {"line": n0, "character": 0}}, "text": text}])
+        fobj = srv.workspace.get(path)
+        resp, _ = impl.request(srv, conn, "textDocument/documentSymbol", {"textDocument": {"uri": impl.uri(path)}})
+        syms = []
+        if resp and resp[0] == "r" and resp[2] is not None:
+            for sy in resp[2]:
+                rg = sy["location"]["range"]
+                syms.append((sy["name"].lower(), sy["kind"], rg["start"]["line"], rg["end"]["line"], (sy.get("containerName") or "").lower()))
+        return (fobj.fixed if fobj is not None else None), sorted(syms)
+    finally:
+        shutil.rmtree(root, ignore_errors=True)
+
+
+def check_pasted(ctx, ftext, rtext, fd, rd):
+    """the source form is a function of the current text: a free-form program pasted into an empty document (empty text is classified
+    as fixed form) and a fixed-form program pasted over a free-form one are understood like the same text read from disk"""
+    for (what, text, ext, initial, want_fixed, ref) in (("free-form program pasted into an empty document", rtext, ".f90", "", False, rd),
+                                                        ("fixed-form program pasted over a free-form line", ftext, ".f", "  integer :: placeholder\n", True, fd)):
+        fixed, syms = pasted_dump(text, ext, initial)
+        ctx.count(("pasted", what, text), True)
+        if fixed != want_fixed or syms != sorted(ref[0]):
+            ctx.report("C14:pasted-text", "%s: classified as %s form, outline %s the one of the same text read from disk" % (
+                what, "fixed" if fixed else "free", "equals" if syms == sorted(ref[0]) else "differs from"),
+                {"kind": "counterexample", "input": {"text": text, "initial_text": initial, "edit": "one ranged didChange replacing everything"},
+                 "implementation": {"fixed": fixed, "symbols": syms[:12]}, "oracle": {"fixed": want_fixed, "symbols": sorted(ref[0])[:12]}})
 
 
 def detection_inputs(ctx, n):
